@@ -46,6 +46,11 @@ theorem C17_tie_guard_ratelimiters_sound (f : String × Sk) (hf : f ∈ CM.Gen.G
 theorem C17_tie_guard_ratelimiters_covers :
     ["acmeClient.throttle"].all (fun n => (CM.Gen.Guard.ratelimiters_funcs ++ CM.Gen.Guard.ratelimiters_helpers).any (fun f => f.1 == n)) = true := by decide
 
+/-- writes to the map need the EXCLUSIVE lock (vocabulary: `Lock`/`Unlock` only, accesses =
+map writes and deletes only): nobody adds a limiter while holding merely the read lock -/
+theorem C17_tie_guard_ratelimiters_writes_exclusive :
+    ∀ f ∈ CM.Gen.Guard.ratelimitersw_funcs, fnOK P f.2 = true := by decide
+
 /-- look-up and creation of a CA/account's limiter are ONE critical section: `throttle` takes
 the map's mutex exactly once (a second acquisition between the two would let simultaneous
 first uses each create their own limiter — every access still "under the lock") -/
